@@ -745,7 +745,7 @@ def argsort(a, axis=-1, kind=None, stable=None):
     return SArray(order, int64)
 
 
-ARGSORT_NONDET = [True]
+ARGSORT_NONDET = [False]  # default: ties keep input order (numpy's introsort is an insertion sort below 17 elements); True = any tie order
 
 
 def sort(a, kind=None):
@@ -1067,6 +1067,8 @@ class Generator:
             raise Unsupported("choice with replacement")
         a = list(a.items if isinstance(a, SArray) else a)
         k = int(size)
+        if k > len(a):
+            raise ValueError("Cannot take a larger sample than population when replace is False")
         p = self._perm(len(a))
         return SArray([a[i] for i in p][:k])
 
@@ -1093,3 +1095,9 @@ class _Random:
 
 
 random = _Random()
+
+
+def append(a, v):
+    a = array(a) if not isinstance(a, SArray) else a
+    vs = list(v.items) if isinstance(v, SArray) else list(v) if isinstance(v, (list, tuple)) else [v]
+    return SArray(list(a.items) + vs, a.dtype)
